@@ -59,6 +59,11 @@ func validateFn(v cty.Value) hcl.Diagnostics {
 	if ref.ValidateRejects(u) {
 		return hcl.Diagnostics{{Severity: hcl.DiagError, Summary: "Rejected by validation", Detail: "The harness validation function rejects this value."}}
 	}
+	// warnings are not errors: they must not change the value or the error flag (an unset
+	// argument is the typical case: "not set, the default applies")
+	if u.IsNull() || !u.IsKnown() || (u.Type() == cty.String && len(u.AsString())%2 == 0) {
+		return hcl.Diagnostics{{Severity: hcl.DiagWarning, Summary: "Harness validation warning", Detail: "The harness validation function accepts this value with a warning."}}
+	}
 	return nil
 }
 
